@@ -240,7 +240,7 @@ impl Session {
 
 /// Sessions inside the RFC's input domain: non-empty psk and psk_id (used only in PSK modes)
 pub fn session_with(suite: BoxedStrategy<Suite>) -> BoxedStrategy<Session> {
-    (suite, mode(), ikm(), ikm(), bytes_range(1, 80), bytes_range(1, 80), bytes(300), stream())
+    (suite, mode(), ikm(), ikm(), bytes_range(1, 300), bytes_range(1, 300), bytes(1100), stream())
         .prop_map(|(suite, mode, ikm_r, ikm_s, psk, psk_id, info, stream)| Session {
             suite,
             mode,
